@@ -21,12 +21,18 @@ def make_reference(rng, n=120000):
     return ''.join(rng.choices('ACGT', k=n))
 
 
-def write_fasta(path, ref):
+def soft_masked(ref, period=37):
+    """The reference as a soft-masked genome: every third `period`-bp stretch in lower case (same bases)."""
+    return ''.join(ref[i:i + period].lower() if (i // period) % 3 == 1 else ref[i:i + period] for i in range(0, len(ref), period))
+
+
+def write_fasta(path, ref, softmask=True):
+    text = soft_masked(ref) if softmask else ref
     with open(path, 'w') as f:
         for name, ln in CONTIGS:
             f.write('>%s\n' % name)
             for i in range(0, ln, 60):
-                f.write(ref[i:i + 60] + '\n')
+                f.write(text[i:i + 60] + '\n')
     pysam.faidx(path)
     return path
 
